@@ -112,6 +112,7 @@ BOUNDS = {
     "quick": {"skeletons": list(SKEL_QUICK), "pairs": "all unordered pairs incl. self (105)", "str": "<= 3 ASCII chars in pair queries; <= 2 arbitrary code points (incl. surrogates) in total.*any queries", "int": "32-bit ints symbolic over their whole range; ints beyond 32 bits: 2**31 < |g| <= 2**40 (5- and 6-byte encodings, both signs at the 2**39 / 2**40 boundaries; thorough adds 7-byte ones), larger ones outside", "float": "finite reals (symbolic) + concrete nan / inf / -0.0 (thorough: -inf, 0.0, 5e-324)", "bigint": "2**31 < |g| <= 2**40; pairs of two negative big ints: 2**31 < |g| < 2**31 + 2**17"},
     "thorough": {"skeletons": list(SKEL_QUICK) + list(SKEL_MORE), "pairs": "all unordered pairs incl. self", "str": "<= 4 ASCII chars in pair queries; <= 2 arbitrary code points in total.*any queries", "int": "as quick", "float": "as quick"},
 }
+BUDGET_S = {"thorough": 3900}  # wall budget of the thorough tier: queries not started by then are reported as not run
 LAST_DETAIL = [""]
 INT_BOUND = 2 ** 71
 
